@@ -594,6 +594,21 @@ class Ctx:
     elif name == 'atan2':
       self.side += [v >= z3.RealVal('-3.1415926536'), v <= z3.RealVal('3.1415926536')]
 
+  def congruence(self, limit=400):
+    """functional-congruence instances for the uninterpreted applications: equal arguments => equal values (pairwise, same function)"""
+    by = {}
+    for key, (v, nm, xs) in self.uf.items():
+      by.setdefault((nm, len(xs)), []).append((v, xs))
+    out = []
+    for (nm, k), lst in by.items():
+      for i in range(len(lst)):
+        for j in range(i + 1, len(lst)):
+          if len(out) >= limit:
+            return out
+          (v1, x1), (v2, x2) = lst[i], lst[j]
+          out.append(z3.Implies(z3.And([a == b for a, b in zip(x1, x2)]), v1 == v2))
+    return out
+
   # -- predicate folding
   def fold_bool(self, p):
     """try to decide a symbolic Bool under assume+side; returns True/False or the term"""
@@ -1017,7 +1032,14 @@ def apply(ctx, e, name, ins):
   if name == 'sort':
     return _sort(ctx, e, ins)
   if name == 'cholesky':
-    return _cholesky(ctx, e, ins)
+    # the factor is only consumed by custom_linear_solve (interpreted below as the exact solution of A x = b): opaque placeholder cells
+    M = ins[0]
+    out = np.empty(M.shape, dtype=object)
+    for idx in np.ndindex(*M.shape):
+      out[idx] = Opaque('cholesky factor cell')
+    return out
+  if name == 'custom_linear_solve':
+    return _custom_linear_solve(ctx, e, ins)
   if name == 'triangular_solve':
     return _triangular_solve(ctx, e, ins)
   if name in ('random_bits', 'random_split', 'random_wrap', 'random_unwrap', 'random_fold_in', 'random_seed',
@@ -1394,6 +1416,127 @@ def _det_adj(M):
       v = minor(rows, cols)
       adj[i, j] = v if (i + j) % 2 == 0 else s_neg(v)
   return det, adj
+
+
+class Opaque:
+  """placeholder cell that may be moved around but not computed with"""
+
+  def __init__(self, what):
+    self.what = what
+
+  def _no(self, *a, **k):
+    raise SXUnsupported('arithmetic on ' + self.what)
+  __add__ = __radd__ = __sub__ = __rsub__ = __mul__ = __rmul__ = __truediv__ = __rtruediv__ = __neg__ = __lt__ = __le__ = __gt__ = __ge__ = _no
+
+
+def simp_cell(v):
+  """polynomial normalisation of one cell (z3 simplify, sum-of-monomials); numerals come back as exact python numbers"""
+  if isc(v):
+    return v
+  t = z3.simplify(v, som=True)
+  if z3.is_rational_value(t):
+    return num(Fraction(t.numerator_as_long(), t.denominator_as_long()))
+  if z3.is_int_value(t):
+    return t.as_long()
+  return t
+
+
+def _gauss_solve(A, B):
+  """exact solution of A X = B over object cells (Gaussian elimination, first non-zero-looking pivot; definedness of pivots is the SPD obligation)"""
+  n = A.shape[0]
+  A = ew(simp_cell, 1)(A)
+  X = ew(simp_cell, 1)(B).reshape(n, -1)
+  for c in range(n):
+    piv = None
+    for r in range(c, n):
+      if not (isc(A[r, c]) and A[r, c] == 0):
+        piv = r
+        break
+    if piv is None:
+      raise SXUnsupported('singular matrix in linear solve')
+    if piv != c:
+      A[[c, piv]] = A[[piv, c]]
+      X[[c, piv]] = X[[piv, c]]
+    for r in range(c + 1, n):
+      if isc(A[r, c]) and A[r, c] == 0:
+        continue
+      f = s_div(A[r, c], A[c, c])
+      for k in range(c, n):
+        A[r, k] = s_sub(A[r, k], s_mul(f, A[c, k]))
+      for k in range(X.shape[1]):
+        X[r, k] = s_sub(X[r, k], s_mul(f, X[c, k]))
+  for c in range(n - 1, -1, -1):
+    for k in range(X.shape[1]):
+      acc = X[c, k]
+      for j in range(c + 1, n):
+        acc = s_sub(acc, s_mul(A[c, j], X[j, k]))
+      X[c, k] = s_div(acc, A[c, c])
+  return X.reshape(B.shape)
+
+
+def _custom_linear_solve(ctx, e, ins):
+  """jax.scipy.linalg.solve: the matrix is recovered from the `matvec` jaxpr on basis vectors and A x = b is solved exactly
+  (for the SPD matrices brax passes the Cholesky-based solve computes exactly this)"""
+  p = e.params
+  cl = p['const_lengths']
+  n_mv = cl.matvec
+  mv_consts = ins[:n_mv]
+  nconst = cl.matvec + cl.vecmat + cl.solve + cl.transpose_solve
+  bs = ins[nconst:]
+  if len(bs) != 1:
+    raise SXUnsupported('custom_linear_solve with several right-hand sides')
+  b = bs[0]
+  mv = p['jaxprs'].matvec
+
+  def apply_mv(X):
+    return eval_jaxpr(ctx, mv.jaxpr, mv.consts, *mv_consts, X)[0]
+
+  def zeros(shape):
+    z = np.empty(shape, dtype=object)
+    for idx in np.ndindex(*shape):
+      z[idx] = 0
+    return z
+  iszero = lambda v: isc(v) and v == 0
+  if b.ndim == 1:
+    n = b.shape[0]
+    A = np.empty((n, n), dtype=object)
+    for k in range(n):
+      ek = zeros(b.shape)
+      ek[k] = 1
+      A[:, k] = apply_mv(ek)
+    ctx.stubs.add('jax.scipy.linalg.solve(assume_a=pos) interpreted as the exact solution of A x = b (Gaussian elimination on the terms)')
+    return [_gauss_solve(A, b)]
+  if b.ndim != 2:
+    raise SXUnsupported('custom_linear_solve with batched operand')
+  # 2-D operand: find out whether right-hand sides are stored as columns (A X = B) or as rows (X A^T = B)
+  probe = zeros(b.shape)
+  if b.shape[1] > 1:
+    probe[0, 1] = 1
+  else:
+    probe[0, 0] = 1
+  r = apply_mv(probe)
+  row_layout = all(iszero(r[i, j]) for i in range(1, b.shape[0]) for j in range(b.shape[1])) and b.shape[1] > 1 and not all(
+      iszero(r[i, j]) for i in range(b.shape[0]) for j in range(b.shape[1]) if j != 1)
+  if b.shape[1] > 1 and not row_layout and not all(iszero(r[i, j]) for i in range(b.shape[0]) for j in range(b.shape[1]) if j != 1):
+    raise SXUnsupported('custom_linear_solve: cannot determine operand layout')
+  if row_layout:
+    n = b.shape[1]
+    A = np.empty((n, n), dtype=object)
+    for k in range(n):
+      ek = zeros(b.shape)
+      ek[0, k] = 1
+      A[:, k] = apply_mv(ek)[0, :]          # e_k^T A^T = (A e_k)^T
+    X = _gauss_solve(A, b.T.copy()).T
+  else:
+    n = b.shape[0]
+    A = np.empty((n, n), dtype=object)
+    for k in range(n):
+      ek = zeros(b.shape)
+      ek[k, 0] = 1
+      A[:, k] = apply_mv(ek)[:, 0]
+    X = _gauss_solve(A, b)
+  ctx.stubs.add('jax.scipy.linalg.solve(assume_a=pos) interpreted as the exact solution of A x = b (Gaussian elimination on the terms)')
+  return [X]
 
 
 class CholFactor:
